@@ -118,7 +118,6 @@ func c03GenPattern(t *rapid.T, pool []string, nsMode bool, polNS string, reqFull
 
 var c03ParamValues = []any{"x", "xy", "yx", "x*", "*x", true, false, "false", 5, 7}
 var c03ReqValues = []any{"x", "xy", "yx", "zz", true, false, "false", "true", 5, 7, "5"}
-var c03LimitValues = []any{"max", 0, -1, 1, 3, 5, 8, 12, "3", "12", "0", "-2", "abc", true}
 
 func c03GenParamMap(t *rapid.T, label string) []c03KV {
 	keys := rapid.SliceOfNDistinct(rapid.SampledFrom([]string{"k1", "k2", "limit", "*"}), 0, 3, func(s string) string { return s }).Draw(t, label+"Keys")
@@ -260,7 +259,18 @@ func c03GenCase(t *rapid.T) c03Case {
 			}
 		}
 		if rapid.IntRange(0, 2).Draw(t, "hasLimit") > 0 {
-			c.Req.Data = append(c.Req.Data, c03KV{Key: "limit", Vals: []any{rapid.SampledFrom(c03LimitValues).Draw(t, "limit")}})
+			var lv any
+			switch k := rapid.IntRange(0, 9).Draw(t, "limitKind"); {
+			case k < 5:
+				lv = rapid.IntRange(-2, 13).Draw(t, "limit")
+			case k < 7:
+				lv = fmt.Sprint(rapid.IntRange(-2, 13).Draw(t, "limit"))
+			case k < 9:
+				lv = "max"
+			default:
+				lv = rapid.SampledFrom([]any{"abc", true, "1x", ""}).Draw(t, "limit")
+			}
+			c.Req.Data = append(c.Req.Data, c03KV{Key: "limit", Vals: []any{lv}})
 		}
 		if rapid.Bool().Draw(t, "wrapped") {
 			c.Req.Wrap = rapid.SampledFrom([]int{1, 4, 5, 10, 11, 30, 60, 61, 120, 200}).Draw(t, "wrapTTL")
@@ -387,9 +397,11 @@ func c03LimitString(req c03Req) (string, bool) {
 
 // c03CheckCase is the property: one case, all operations, all relations.
 func c03CheckCase(tb verifx.TB, rec *verifx.Recorder, c c03Case, light bool) {
-	ix := c03NewIndex(c.Pols)
 	parsed := c03Parse(tb, c.Pols)
-	acl0 := c03Build(tb, parsed)
+	c03CheckCaseWith(tb, rec, c, c03NewIndex(c.Pols), parsed, c03Build(tb, parsed), light)
+}
+
+func c03CheckCaseWith(tb verifx.TB, rec *verifx.Recorder, c c03Case, ix *c03Index, parsed []*Policy, acl0 *ACL, light bool) {
 	detail := func(extra map[string]any) map[string]any {
 		d := c03Describe(c)
 		for k, v := range extra {
@@ -599,9 +611,15 @@ func c03CheckCase(tb verifx.TB, rec *verifx.Recorder, c c03Case, light bool) {
 
 	// (4) monotonicity: one more policy that only denies can never turn a denial into a permission,
 	// and can only change a decision to "denied".
-	denyParsed := c03Parse(tb, []c03Policy{c.DenyPol})[0]
-	denyParsed.Name = "denyonly"
-	for _, front := range []bool{false, true} {
+	var denyParsed *Policy
+	fronts := []bool{false, true}
+	if len(c.DenyPol.Stanzas) > 0 {
+		denyParsed = c03Parse(tb, []c03Policy{c.DenyPol})[0]
+		denyParsed.Name = "denyonly"
+	} else {
+		fronts = nil
+	}
+	for _, front := range fronts {
 		var pp []*Policy
 		if front {
 			pp = append([]*Policy{denyParsed}, parsed...)
